@@ -427,9 +427,6 @@ impl<'a> Gen<'a> {
                         _ => 1,
                     }
                 }
-            } else if f.xml_lang {
-                // xml:lang stays absent: its wire form is outside the attribute clause of C03/C04
-                usize::from(f.wrap == Wrap::Bare)
             } else if f.attr {
                 match f.wrap {
                     Wrap::Bare => 1,
@@ -571,7 +568,8 @@ pub fn infoset(g: &Gen, v: &StructV, ns: &str, local: &str) -> XElem {
                             Node::Leaf(l) => (l.lexical.clone(), l.builtin.clone()),
                             Node::Struct(s) => text_of(s).unwrap_or_default(),
                         };
-                        e.attrs.push((f.xml.clone(), lex, b));
+                        // a reference to xml:lang is the one qualified attribute there is
+                        e.attrs.push((if f.xml_lang { "xml:lang".to_string() } else { f.xml.clone() }, lex, b));
                     } else {
                         let mns = &g.m.files[f.ns_file].ns;
                         match n {
@@ -734,11 +732,13 @@ pub fn compare(node: roxmltree::Node, want: &XElem, check_root_name: bool, path:
     // attributes: unqualified, by declared name
     let mut seen = vec![];
     for a in node.attributes() {
-        if a.namespace().is_some() {
+        let in_xml_ns = a.namespace() == Some("http://www.w3.org/XML/1998/namespace");
+        if a.namespace().is_some() && !in_xml_ns {
             return Some(("attribute-qualified".into(), format!("{here}: attribute {{{}}}{} carries a namespace", a.namespace().unwrap(), a.name())));
         }
-        match want.attrs.iter().find(|(n, _, _)| n == a.name()) {
-            None => return Some(("attribute-undeclared".into(), format!("{here}: @{}", a.name()))),
+        let a_name = if in_xml_ns { format!("xml:{}", a.name()) } else { a.name().to_string() };
+        match want.attrs.iter().find(|(n, _, _)| *n == a_name) {
+            None => return Some(("attribute-undeclared".into(), format!("{here}: @{a_name}"))),
             Some((n, lex, b)) => {
                 if !value_equal(b, a.value(), lex) {
                     return Some(("attribute-value".into(), format!("{here}/@{n}: {:?} expected {lex:?} ({b})", a.value())));
